@@ -132,6 +132,9 @@ class Gen(object):
     self.n += 1
     r = self.r
     k = r.random()
+    past = sorted(getattr(self, 'past_names', ()))
+    if past and r.random() < 0.12:
+      return r.choice(past)
     if k < 0.55:
       return '%s%d' % (prefix, self.n)
     if k < 0.7:
@@ -191,6 +194,16 @@ class Gen(object):
   # -------------------------------------------------------------------------------- bundles
   def bundle(self, m):
     r = self.r
+    # Remember every column / table id ever seen: reusing a name that formulas may still mention
+    # (after a removal or rename) is a deliberate pattern.
+    now = set()
+    for t in m.tables.values():
+      now.add(t['id'])
+      for c in t['cols']:
+        if vis(c):
+          now.add(c['id'])
+    self.past_names = (getattr(self, 'past_names', set()) | getattr(self, 'prev_names', set())) - now
+    self.prev_names = now
     n = 1 if r.random() > self.flags['bundle_multi'] else r.randint(2, 4)
     out = []
     # Half of the multi-action bundles concentrate on one table (several edits of the same cells
